@@ -610,23 +610,51 @@ pub fn replay_perm(case: &Value) -> Option<(String, String)> {
 
 // ------------------------------------------------------------------ long histories (size-related behaviour)
 
+/// a member of a long history: label, type, model identity
+pub struct LMember {
+    pub label: String,
+    pub meta: MetaType,
+    pub ident: String,
+}
+
+fn members_u1(env: &Env) -> Vec<LMember> {
+    env.u.iter().map(|m| LMember { label: m.label.to_string(), meta: m.meta, ident: format!("{:?}", vuniverse::u3::normal_form(&vuniverse::u3::parse(m.label))) }).collect()
+}
+
+/// U1 + the U3 table (built-in constructors nested to depth 2; thorough: the larger table): some thousand roots,
+/// a registry of more than a thousand entries. Identity = normal form computed from the source text of the type.
+fn members_big(env: &Env, thorough: bool) -> Vec<LMember> {
+    use vuniverse::u3;
+    let mut e = u3::depth1();
+    e.extend(u3::depth2());
+    e.extend(u3::same_name_locals());
+    if thorough {
+        e.extend(u3::depth2_more());
+    }
+    let mut out = members_u1(env);
+    out.extend(e.into_iter().map(|x| LMember { label: x.label.replace(' ', ""), meta: x.meta, ident: format!("{:?}", u3::normal_form(&u3::parse(x.label))) }));
+    let mut seen = std::collections::HashSet::new();
+    out.retain(|r| seen.insert(r.label.clone()));
+    out
+}
+
 /// Behaviour that depends on how many types a registry already holds (thresholds at 8, 16, 32 ... entries) is out
 /// of reach of the depth-bounded product. Reduction, as for the C12 long tables: one history registers EVERY member
-/// of U1, for every rotation of the member list and its reversal (2n orders); after every registration the
+/// of the universe, for a family of rotations of the member list and their reversals; after every registration the
 /// property's own oracle is evaluated on the real Registry (C05: every member registered so far is registered again
 /// and must return its id and leave the registry unchanged; C11: the earlier snapshot is a prefix of the later
 /// one), and the final registry is compared with the one of the first order (C11: equal up to renaming),
 /// with the closure computed by the harness (C05), with the image oracle (C02) and the density/closure
-/// predicate (C01).
-pub fn long_history(env: &Env, pid: &str, rot: usize, reversed: bool) -> (u64, usize, Option<(String, String)>) {
-    let n = env.u.len();
-    let mut order: Vec<u16> = (0..n).map(|k| ((k + rot) % n) as u16).collect();
+/// predicate (C01). `sweep_every`: the C05 re-registration sweep runs after every k-th registration (1 = always).
+pub fn long_history(u: &[LMember], uname: &str, pid: &str, rot: usize, reversed: bool, sweep_every: usize) -> (u64, usize, Option<(String, String)>) {
+    let n = u.len();
+    let mut order: Vec<usize> = (0..n).map(|k| (k + rot) % n).collect();
     if reversed {
         order.reverse();
     }
     let mut fail: Option<(String, String)> = None;
-    let (portable, ids, steps) = run_long(env, pid, &order, &mut fail);
-    let metas: Vec<(MetaType, u32)> = order.iter().map(|i| (env.u[*i as usize].meta, ids[*i as usize])).collect();
+    let (portable, ids, steps) = run_long(u, pid, &order, &mut fail, sweep_every);
+    let metas: Vec<(MetaType, u32)> = order.iter().map(|i| (u[*i].meta, ids[*i])).collect();
     match pid {
         "C01" => {
             let snap: Snapshot = portable.types.iter().map(|t| (t.id, t.ty.clone())).collect();
@@ -644,58 +672,72 @@ pub fn long_history(env: &Env, pid: &str, rot: usize, reversed: bool) -> (u64, u
             if portable.types.len() != want {
                 fail.get_or_insert(("entry-count".into(), format!("registry holds {} entries but {} distinct type identities are reachable from what was registered", portable.types.len(), want)));
             }
+            // same model identity <=> same id: group by identity, then by id
+            let mut by_ident: BTreeMap<&str, (usize, u32)> = BTreeMap::new();
+            let mut by_id: BTreeMap<u32, usize> = BTreeMap::new();
             for a in 0..n {
-                for b in a + 1..n {
-                    let (ma, mb) = (&env.u[a], &env.u[b]);
-                    if (ma.ident == mb.ident) != (ids[a] == ids[b]) {
-                        fail.get_or_insert((
-                            if ma.ident == mb.ident { "alias-not-merged".into() } else { "distinct-types-merged".into() },
-                            format!("{} and {} ({}) got ids {} and {}", ma.label, mb.label, if ma.ident == mb.ident { "one identity" } else { "different types" }, ids[a], ids[b]),
-                        ));
+                match by_ident.get(u[a].ident.as_str()) {
+                    Some((b, idb)) if *idb != ids[a] => {
+                        fail.get_or_insert(("alias-not-merged".into(), format!("{} and {} (one identity) got ids {} and {}", u[*b].label, u[a].label, idb, ids[a])));
+                    }
+                    Some(_) => {}
+                    None => {
+                        by_ident.insert(u[a].ident.as_str(), (a, ids[a]));
+                    }
+                }
+                match by_id.get(&ids[a]) {
+                    Some(b) if u[*b].ident != u[a].ident => {
+                        fail.get_or_insert(("distinct-types-merged".into(), format!("{} and {} (different types) share id {}", u[*b].label, u[a].label, ids[a])));
+                    }
+                    Some(_) => {}
+                    None => {
+                        by_id.insert(ids[a], a);
                     }
                 }
             }
         }
         "C11" => {
             let mut f2 = None;
-            let (p2, _, _) = run_long(env, "", &order, &mut f2);
+            let (p2, _, _) = run_long(u, "", &order, &mut f2, 0);
             if p2.encode() != portable.encode() {
                 fail.get_or_insert(("replay-differs".into(), "replaying the same registrations gave different bytes".into()));
             }
-            let base: Vec<u16> = (0..n as u16).collect();
+            let base: Vec<usize> = (0..n).collect();
             let mut f3 = None;
-            let (p0, ids0, _) = run_long(env, "", &base, &mut f3);
+            let (p0, ids0, _) = run_long(u, "", &base, &mut f3, 0);
             if ids.iter().any(|i| *i as usize >= portable.types.len()) || ids0.iter().any(|i| *i as usize >= p0.types.len()) {
                 fail.get_or_insert(("perm-dangling".into(), "a returned id does not resolve".into()));
             } else if (vcommon::refs::canonical_from(&portable, &ids), portable.types.len()) != (vcommon::refs::canonical_from(&p0, &ids0), p0.types.len()) {
-                fail.get_or_insert(("permutation-differs".into(), format!("registering all of U1 in this order and in declaration order give registries that differ beyond a renaming of ids ({} vs {} entries)", portable.types.len(), p0.types.len())));
+                fail.get_or_insert(("permutation-differs".into(), format!("registering all of {uname} in this order and in declaration order give registries that differ beyond a renaming of ids ({} vs {} entries)", portable.types.len(), p0.types.len())));
             }
         }
         _ => {}
     }
-    (steps, portable.types.len(), fail.map(|(k, m)| (format!("long:{k}"), format!("{m} — all {n} members of U1 registered in rotation {rot}{}", if reversed { " reversed" } else { "" }))))
+    (steps, portable.types.len(), fail.map(|(k, m)| (format!("long:{k}"), format!("{m} — all {n} members of {uname} registered in rotation {rot}{}", if reversed { " reversed" } else { "" }))))
 }
 
-fn run_long(env: &Env, pid: &str, order: &[u16], fail: &mut Option<(String, String)>) -> (PortableRegistry, Vec<u32>, u64) {
+fn run_long(u: &[LMember], pid: &str, order: &[usize], fail: &mut Option<(String, String)>, sweep_every: usize) -> (PortableRegistry, Vec<u32>, u64) {
     let mut reg = Registry::new();
-    let mut ids = vec![u32::MAX; env.u.len()];
+    let mut ids = vec![u32::MAX; u.len()];
     let mut steps = 0u64;
+    let mut prev: Option<Snapshot> = if pid == "C11" { Some(snapshot(&reg)) } else { None };
     for (k, i) in order.iter().enumerate() {
-        let before = if pid == "C11" { Some(snapshot(&reg)) } else { None };
-        ids[*i as usize] = reg.register_type(&env.u[*i as usize].meta).id;
+        ids[*i] = reg.register_type(&u[*i].meta).id;
         steps += 1;
-        if let Some(b) = before {
-            if let Err(e) = prefix_stable(&b, &snapshot(&reg)) {
+        if let Some(b) = prev.take() {
+            let after = snapshot(&reg);
+            if let Err(e) = prefix_stable(&b, &after) {
                 fail.get_or_insert(("prefix-stability".into(), format!("{e} (step {k}, {} entries before)", b.len())));
             }
+            prev = Some(after);
         }
-        if pid == "C05" {
+        if pid == "C05" && sweep_every > 0 && (k % sweep_every == 0 || k + 1 == order.len() || (k + 1).is_power_of_two()) {
             let held = snapshot(&reg);
             for j in &order[..=k] {
-                let again = reg.register_type(&env.u[*j as usize].meta).id;
+                let again = reg.register_type(&u[*j].meta).id;
                 steps += 1;
-                if again != ids[*j as usize] {
-                    fail.get_or_insert(("reregistration-new-id".into(), format!("re-registering {} returned id {again} but it was registered as id {} (registry holds {} entries)", env.u[*j as usize].label, ids[*j as usize], held.len())));
+                if again != ids[*j] {
+                    fail.get_or_insert(("reregistration-new-id".into(), format!("re-registering {} returned id {again} but it was registered as id {} (registry holds {} entries)", u[*j].label, ids[*j], held.len())));
                 }
             }
             if snapshot(&reg) != held {
@@ -706,16 +748,28 @@ fn run_long(env: &Env, pid: &str, order: &[u16], fail: &mut Option<(String, Stri
     (reg.into(), ids, steps)
 }
 
-/// all 2n orders, in parallel
-pub fn explore_long(env: &'static Env, pid: &'static str) -> (u64, u64, usize, Vec<Violation>) {
+fn long_plan(env: &Env, which: &str, thorough: bool) -> (Vec<LMember>, Vec<(usize, bool)>, usize) {
+    if which == "U1" {
+        let u = members_u1(env);
+        let n = u.len();
+        (u, (0..n).flat_map(|r| [(r, false), (r, true)]).collect(), 1)
+    } else {
+        let u = members_big(env, thorough);
+        let n = u.len();
+        let k = if thorough { 16 } else { 8 };
+        (u, (0..k).flat_map(|j| [(j * n / k, false), (j * n / k, true)]).collect(), 64)
+    }
+}
+
+/// U1: all 2n orders; U1+U3: 8 (thorough 16) evenly spaced rotations and their reversals — in parallel
+pub fn explore_long(env: &'static Env, pid: &'static str, which: &'static str, thorough: bool) -> (u64, u64, usize, usize, Vec<Violation>) {
     use rayon::prelude::*;
-    let n = env.u.len();
-    let cases: Vec<(usize, bool)> = (0..n).flat_map(|r| [(r, false), (r, true)]).collect();
+    let (u, cases, sweep) = long_plan(env, which, thorough);
     let res: Vec<(u64, usize, Option<Violation>)> = cases
         .par_iter()
         .map(|(rot, rev)| {
-            let r = catch(std::panic::AssertUnwindSafe(|| long_history(env, pid, *rot, *rev)));
-            let case = json!({"kind": "u1-long", "rotation": rot, "reversed": rev});
+            let r = catch(std::panic::AssertUnwindSafe(|| long_history(&u, which, pid, *rot, *rev, sweep)));
+            let case = json!({"kind": "u1-long", "universe": which, "thorough": thorough, "rotation": rot, "reversed": rev});
             match r {
                 Ok((s, t, f)) => (s, t, f.map(|(key, msg)| Violation { key, msg, case })),
                 Err(p) => (0, 0, Some(Violation { key: "long:panic".into(), msg: format!("panicked: {p}"), case })),
@@ -724,9 +778,11 @@ pub fn explore_long(env: &'static Env, pid: &'static str) -> (u64, u64, usize, V
         .collect();
     let steps = res.iter().map(|r| r.0).sum();
     let maxt = res.iter().map(|r| r.1).max().unwrap_or(0);
-    (cases.len() as u64, steps, maxt, res.into_iter().filter_map(|r| r.2).collect())
+    (cases.len() as u64, steps, u.len(), maxt, res.into_iter().filter_map(|r| r.2).collect())
 }
 
 pub fn replay_long(pid: &str, case: &Value) -> Option<(String, String)> {
-    long_history(env_full(), pid, case["rotation"].as_u64()? as usize, case["reversed"].as_bool()?).2
+    let which = if case["universe"].as_str() == Some("U1+U3") { "U1+U3" } else { "U1" };
+    let (u, _, sweep) = long_plan(env_full(), which, case["thorough"].as_bool().unwrap_or(false));
+    long_history(&u, which, pid, case["rotation"].as_u64()? as usize, case["reversed"].as_bool()?, sweep).2
 }
